@@ -85,7 +85,7 @@ CHECKS["C08"] = dict(
 CHECKS["C20"] = dict(
     engine="symx+z3",
     technique="bounded symbolic execution (symx/z3): f_lasti symbolic over every reachable suspension offset through the real referents implementation with a validated collector model; symbolic (unbounded) index of the faulted step inside the trickery analysis on really suspended frames; solver-enumerated set_trickery_enabled sequences",
-    text="(1) For every code object of the C01 corpus and every reachable suspension offset the referents answer contains every active manager in order with right obj/is_async, an is_exiting entry exactly when an exit call is in progress, and extras only for the manager being entered/exited. (2) For 4 programs driven through all their suspensions, a fault at ANY step k of analyze_with_blocks / inspect_frame / currently_exiting_context / the join yields the referents answer, exactly one InspectionWarning and no exception. (3) All sequences of length <= 3 (4) over True/False/None select the documented mode, observed on the calling and on another thread.",
+    text="(1) For every code object of the C01 corpus and every reachable suspension offset the referents answer contains every active manager in order with right obj/is_async, an is_exiting entry exactly when an exit call is in progress, and extras only for the manager being entered/exited. (2) For 4 programs driven through all their suspensions, a fault at ANY step k of analyze_with_blocks / inspect_frame / currently_exiting_context / the join yields the referents answer, exactly one InspectionWarning and no exception. (1b) About 70 programs of all kinds driven for real with trickery disabled: at the suspension whose index equals a symbolic (unbounded) integer, the real referents answer on the real frame with its real origin is judged against the managers' event log. (3) All sequences of length <= 3 (4) over True/False/None select the documented mode, observed on the calling and on another thread.",
     note="Obligation 1 assumes the collector reports a frame's locals then its value stack bottom-up; this is validated against the real collector on really suspended generators in the run (mismatch = exit 2). F2 sites are reported as KNOWN-FINDING (the exiting-block matcher is shared by both modes). CPython 3.12 only.",
     ref="DESIGN.md 5.C20",
 )
